@@ -22,8 +22,8 @@ PROPERTIES = ["C16"]
 MANIFEST = {
     "C16": {
         "technique": "Lean 4 proof about an executable model of src/Document/Xml.cpp (skipSpace/comment loop, readToken, parseElement/content loop with cursor rewind, processing-instruction loop, unescapeString/escapeString, Element::toString) + differential correspondence model vs the real Xml.cpp (ASan/UBSan, exactly sized heap copies, watchdog, allocation budget) + independent Python reference (strict regex tokenizer with tag stack, xml.etree, own serialiser, escape/unescape, position checks)",
-        "text": "Machine-checked theorems over ALL byte strings / ALL element trees of the model: parse_total (the loop fuel text-length+2 handed to every loop and to the recursion is never exhausted), parse_no_oob (every read goes through peek/cstr which yield .oob behind the terminator; never reached), error_pos_inside (a reported line/column is exactly the line/column of an offset 0..length of the text, CR LF / CR / LF line ends), comments_are_whitespace + comments_between_tokens + comments_in_content (same-text forms: at every place where the parser looks for a token or for element content, starting in front of a complete comment equals starting behind it — token, next cursor, children, texts, final cursor; in front of a comment <!--body--> with no earlier '-->' skipSpace continues exactly as its outer loop does behind it, with right line bookkeeping; skipSpace is the only white-space skipper), pi_before_root_partial (a <?..?> whose body has no '<' and no '?>' — lone '?' and line breaks allowed — is stepped over by one round of the prologue loop), pi_prologue_skipped_partial (end to end: white space + any number of such instructions + '<' of the root: parseDoc = parsing the root at the cursor behind the prologue, line bookkeeping right), escape_unescape (unescape(escape s) = s for text and attribute mode), unescape_no_growth, escape_no_overflow_policy (for EVERY reserve policy that reserves at least the minimum), escape_no_overflow (escapeString's own buffer management — initial slack, reserve at every escape, String::detach rounding, raw pointer writes — modelled with checked memory over constants regenerated from the sources: never a write at or behind the capacity, buffer = escape s), roundtrip / roundtrip_element / roundtrip_inside (parse(toString e) = e up to recorded line/column for every tree with well-formed names, distinct attribute keys, arbitrary NUL-free values, non-blank non-adjacent texts; by mutual induction on the tree with the parser positioned inside a larger text).  The model is tied to the current Xml.cpp on every run by executing identical op lines (parse, tostr, rt = Xml::toString then parse, esc, unesc, copy) on both and comparing ok/fail, error line/column/message class, the dump of the parsed tree with element positions, and serialised bytes, and for escm the capacity of the String escapeString returns: every byte string of length <= 3 (thorough 4) over a 14-symbol markup alphabet, all small element bodies / attribute lists, generated decorated documents (comments next to text, processing instructions with line breaks, entity and numeric references, both quote kinds), mutated and truncated documents, generated element trees incl. depth 1000, long values with many escapes swept across the capacity boundaries of escapeString's buffer (runs of 1..131 of each escapable byte, tails 0..3, plain heads, dense random values).",
-        "note": "Trusted: Lean kernel + propext/Classical.choice/Quot.sound; the hand translation of Xml.cpp into the model (validated by the correspondence run, not proved) — it mirrors the REPAIRED sources (fixes/xml/0001-0004: line breaks in attribute values as &#10;/&#13;, no endless loop on a comment next to text, rewind after a failed look-ahead, line breaks counted inside <?..?>); entity table and escape conditions are written by hand in the model (not generated; the buffer constants of escapeString ARE generated, tools/areas/xml.py gen -> Nstd/Generated/XmlEscape.lean) and covered by esc/unesc on every single byte and all short strings.  libnstd String/HashMap/List are used as given (HashMap iteration = insertion order, append replaces an existing key's value); libc strpbrk/strchr/strncmp/strlen are list functions on the C string at a checked offset; glibc sscanf(\"#%u\") is modelled from its observed behaviour (white space, sign, strtoul saturation, cut to 32 bit).  pi_before_root is proved only for bodies without '<' (OPEN statement in Props.lean: behind a '?'/line break inside an instruction the code also skips a comment, so bodies with '<!--' behave differently).  OPEN in Props.lean: the two-text form of the comment clause (parse(pre++comment++post) vs parse(pre++post)).  'copies of element values are independent' has NO theorem here (OPEN block in Props.lean): it is covered by the Rc/C09 theorems about Xml::Variant payload blocks (no_inplace_write_while_shared, st_write_sole, mt_view_stable, ref_counts_handles, freed_once_after_last, no_use_after_drop) and, for element trees, by the correspondence only: in the model values are immutable; on the C++ side only Element-level copies (copy constructor, assignment, edits of the copy, destruction of the source first) are exercised by the `copy` op under ASan — Xml::Variant assignment and mutable toElement() on a shared value (defects D15/D16) belong to the Rc/Variant area and are kept out of these generators.  Stack depth of the recursive C++ parser is not modelled (documents nested 1000 deep are run; 10000 deep overflows the stack, outside the property's bound).  int overflow of line/column not modelled.  Allocation never fails.",
+        "text": "Machine-checked theorems over ALL byte strings / ALL element trees of the model: parse_total (the loop fuel text-length+2 handed to every loop and to the recursion is never exhausted), parse_no_oob (every read goes through peek/cstr which yield .oob behind the terminator; never reached), error_pos_inside (a reported line/column is exactly the line/column of an offset 0..length of the text, CR LF / CR / LF line ends), comments_are_whitespace + comments_between_tokens + comments_in_content (same-text forms: at every place where the parser looks for a token or for element content, starting in front of a complete comment equals starting behind it — token, next cursor, children, texts, final cursor; in front of a comment <!--body--> with no earlier '-->' skipSpace continues exactly as its outer loop does behind it, with right line bookkeeping; skipSpace is the only white-space skipper), pi_before_root (a <?..?> with ANY body that does not contain '?>' — '<', '<!--', lone '?', CR / LF / CRLF anywhere — is stepped over by one round of the prologue loop: it ends at its first '?>'), pi_prologue_skipped (end to end: white space + any number of such instructions + '<' of the root: parseDoc = parsing the root at the cursor behind the prologue, line bookkeeping right), escape_unescape (unescape(escape s) = s for text and attribute mode), unescape_no_growth, escape_no_overflow_policy (for EVERY reserve policy that reserves at least the minimum), escape_no_overflow (escapeString's own buffer management — initial slack, reserve at every escape, String::detach rounding, raw pointer writes — modelled with checked memory over constants regenerated from the sources: never a write at or behind the capacity, buffer = escape s), roundtrip / roundtrip_element / roundtrip_inside (parse(toString e) = e up to recorded line/column for every tree with well-formed names, distinct attribute keys, arbitrary NUL-free values, non-blank non-adjacent texts; by mutual induction on the tree with the parser positioned inside a larger text).  The model is tied to the current Xml.cpp on every run by executing identical op lines (parse, tostr, rt = Xml::toString then parse, esc, unesc, copy) on both and comparing ok/fail, error line/column/message class, the dump of the parsed tree with element positions, and serialised bytes, and for escm the capacity of the String escapeString returns: every byte string of length <= 3 (thorough 4) over a 14-symbol markup alphabet, all small element bodies / attribute lists, generated decorated documents (comments next to text, processing instructions with line breaks, '<' and '<!--' behind '?' / line breaks inside them, entity and numeric references, both quote kinds), mutated and truncated documents, generated element trees incl. depth 1000, long values with many escapes swept across the capacity boundaries of escapeString's buffer (runs of 1..131 of each escapable byte, tails 0..3, plain heads, dense random values).",
+        "note": "Trusted: Lean kernel + propext/Classical.choice/Quot.sound; the hand translation of Xml.cpp into the model (validated by the correspondence run, not proved) — it mirrors the REPAIRED sources (fixes/xml/0001-0005: line breaks in attribute values as &#10;/&#13;, no endless loop on a comment next to text, rewind after a failed look-ahead, line breaks counted inside <?..?>, no white space / comment skipping inside <?..?>); entity table and escape conditions are written by hand in the model (not generated; the buffer constants of escapeString ARE generated, tools/areas/xml.py gen -> Nstd/Generated/XmlEscape.lean) and covered by esc/unesc on every single byte and all short strings.  libnstd String/HashMap/List are used as given (HashMap iteration = insertion order, append replaces an existing key's value); libc strpbrk/strchr/strncmp/strlen are list functions on the C string at a checked offset; glibc sscanf(\"#%u\") is modelled from its observed behaviour (white space, sign, strtoul saturation, cut to 32 bit).  pi_before_root / pi_prologue_skipped hold at full strength for the sources carrying fixes/xml/0005 (inside a processing instruction the loop no longer calls skipSpace, so '<!--' behind a '?' or a line break starts no comment); on sources without it the correspondence run reports \"<?a ?<!--?><r/>\" (corpus/C16/d39-pi-comment.txt).  OPEN in Props.lean: the two-text form of the comment clause (parse(pre++comment++post) vs parse(pre++post)).  'copies of element values are independent' has NO theorem here (OPEN block in Props.lean): it is covered by the Rc/C09 theorems about Xml::Variant payload blocks (no_inplace_write_while_shared, st_write_sole, mt_view_stable, ref_counts_handles, freed_once_after_last, no_use_after_drop) and, for element trees, by the correspondence only: in the model values are immutable; on the C++ side only Element-level copies (copy constructor, assignment, edits of the copy, destruction of the source first) are exercised by the `copy` op under ASan — Xml::Variant assignment and mutable toElement() on a shared value (defects D15/D16) belong to the Rc/Variant area and are kept out of these generators.  Stack depth of the recursive C++ parser is not modelled (documents nested 1000 deep are run; 10000 deep overflows the stack, outside the property's bound).  int overflow of line/column not modelled.  Allocation never fails.",
         "design_ref": "DESIGN.md 3/C16",
     }
 }
@@ -420,9 +420,7 @@ def strict_parse(t):
         m = RE_PI.match(t, p)
         if not m:
             raise Reject("unterminated processing instruction")
-        if b"<!--" in m.group(1):
-            raise Unsure
-        p = skip_misc(t, m.end())
+        p = skip_misc(t, m.end())      # the instruction ends at its first '?>', whatever its body holds ('<', '<!--', line breaks ...)
     if p >= len(t):
         raise Reject("no root element")
     if t[p:p + 1] != b"<":
@@ -667,8 +665,10 @@ def ref_line(op, impl):
     if impl.startswith("FAULT"):
         return "!no FAULT expected"
     try:
-        if w[0] == "parse" and len(w) == 2:
+        if w[0] in ("parse", "pparse", "parser") and len(w) == 2:
             return expect_parse(unhx(w[1]), impl)
+        if w[0] == "file":
+            w = ["rt"] + w[1:]
         if w[0] in ("tostr", "rt") and len(w) == 2:
             root = parse_spec(w[1])
             if root is None:
@@ -748,8 +748,143 @@ def ref_line(op, impl):
     return "bad-op"
 
 
+
+# ---- Variant handles (hassign / hclear / hsetstr / hmut): immutable values, eager copies ------------------------
+NVARS = 4
+HBRANCH = {}
+
+
+def _hb(k):
+    HBRANCH[k] = HBRANCH.get(k, 0) + 1
+
+
+def h_dump(v):
+    if v is None:
+        return "n"
+    if isinstance(v, bytes):
+        return "t" + v.hex()
+    _, name, attrs, kids = v
+    return "(" + name.hex() + "".join("@" + k.hex() + "=" + x.hex() for k, x in attrs) + "".join("," + h_dump(c) for c in kids) + ")"
+
+
+def h_elem(v):
+    """what the mutable toElement() makes of a value: a non-element becomes an empty element"""
+    return v if isinstance(v, tuple) else ("e", b"", (), ())
+
+
+def h_edit(e, ed, vars_, v):
+    """the edit on the element value e -> new value, or None (bad op)"""
+    _, name, attrs, kids = e
+    k = ed[0]
+    if k == "rename" and len(ed) == 2:
+        return ("e", unhx(ed[1]), attrs, kids)
+    if k == "attr" and len(ed) == 3:
+        return ("e", name, tuple(dedup(list(attrs) + [(unhx(ed[1]), unhx(ed[2]))])), kids)
+    if k == "addtext" and len(ed) == 2:
+        return ("e", name, attrs, kids + (unhx(ed[1]),))
+    if k == "addelem" and len(ed) == 2:
+        return ("e", name, attrs, kids + (("e", unhx(ed[1]), (), ()),))
+    if k == "delfirst" and len(ed) == 1:
+        return ("e", name, attrs, kids[1:]) if kids else None
+    if k == "clear" and len(ed) == 1:
+        return ("e", b"", (), ())
+    if k == "settext" and len(ed) == 3 and ed[1].isdigit():
+        i = int(ed[1])
+        if i >= len(kids):
+            return None
+        _hb("settext on " + ("text child" if isinstance(kids[i], bytes) else "element child"))
+        return ("e", name, attrs, kids[:i] + (unhx(ed[2]),) + kids[i + 1:])
+    if k == "push" and len(ed) == 2 and ed[1].isdigit():
+        src = int(ed[1])
+        if src >= NVARS or src == v or vars_[src] is None:
+            return None
+        return ("e", name, attrs, kids + (vars_[src],))
+    return None
+
+
+def h_mut(val, path, ed, vars_, v):
+    e = h_elem(val)
+    if not path:
+        return h_edit(e, ed, vars_, v)
+    i = path[0]
+    if i >= len(e[3]):
+        return None
+    sub = h_mut(e[3][i], path[1:], ed, vars_, v)
+    if sub is None:
+        return None
+    return ("e", e[1], e[2], e[3][:i] + (sub,) + e[3][i + 1:])
+
+
+RE_HEXTOK = re.compile(r"(?:-|(?:[0-9a-f][0-9a-f])+)\Z")
+
+
+def h_step(vars_, w):
+    """one h-op on the list of values -> True (done) / False (bad op: nothing changes)"""
+    try:
+        if w[0] == "hassign" and len(w) == 3 and w[1].isdigit() and w[2].isdigit():
+            d, s_ = int(w[1]), int(w[2])
+            if d >= NVARS or s_ >= NVARS:
+                return False
+            _hb("assign: " + ("self" if d == s_ else "from null" if vars_[s_] is None else "over null" if vars_[d] is None else "over a value"))
+            vars_[d] = vars_[s_]
+            return True
+        if w[0] == "hclear" and len(w) == 2 and w[1].isdigit():
+            if int(w[1]) >= NVARS:
+                return False
+            vars_[int(w[1])] = None
+            return True
+        if w[0] == "hsetstr" and len(w) == 3 and w[1].isdigit() and RE_HEXTOK.match(w[2]):
+            v = int(w[1])
+            if v >= NVARS:
+                return False
+            shared = any(i != v and vars_[i] is vars_[v] for i in range(NVARS))
+            _hb("setstr: " + ("null" if vars_[v] is None else ("text" if isinstance(vars_[v], bytes) else "element") + (" shared" if shared else " sole")))
+            vars_[v] = unhx(w[2])
+            return True
+        if w[0] == "hmut" and len(w) >= 4 and w[1].isdigit():
+            v = int(w[1])
+            if v >= NVARS:
+                return False
+            path = [] if w[2] == "-" else [int(x) for x in w[2].split(".")]
+            if any(not RE_HEXTOK.match(t) for t in w[4:]) and w[3] not in ("settext", "push"):
+                return False
+            if w[3] == "settext" and (len(w) != 6 or not RE_HEXTOK.match(w[5])):
+                return False
+            new = h_mut(vars_[v], path, w[3:], vars_, v)
+            if new is None:
+                return False
+            shared = any(i != v and vars_[i] is vars_[v] for i in range(NVARS))
+            _hb("mut root: " + ("null" if vars_[v] is None else "text" if isinstance(vars_[v], bytes) else "element" + (" shared with a variable" if shared else " not shared at the root")))
+            _hb(f"mut depth {min(len(path), 3)}{'+' if len(path) >= 3 else ''}")
+            _hb("edit " + w[3])
+            vars_[v] = new
+            return True
+    except ValueError:
+        pass
+    return False
+
+
+def h_line(vars_, op):
+    ok = h_step(vars_, op.split(" "))
+    return "hv " + " ".join(h_dump(v) for v in vars_) if ok else "bad-op"
+
 def reference(hist, impl_out):
-    return [ref_line(op, impl_out[k] if k < len(impl_out) else None) for k, op in enumerate(hist)]
+    out = []
+    vars_ = [None] * NVARS          # every history starts behind a `reset`
+    for k, op in enumerate(hist):
+        impl = impl_out[k] if k < len(impl_out) else None
+        if op.startswith("h"):
+            saved = dict(HBRANCH)       # branch counters are taken while generating, not while judging
+            out.append(h_line(vars_, op))
+            HBRANCH.clear()
+            HBRANCH.update(saved)
+            STATS["h-ops"] = STATS.get("h-ops", 0) + 1
+        elif op == "reset":
+            vars_ = [None] * NVARS
+            out.append("ready")
+        else:
+            out.append(ref_line(op, impl))
+    return out
 
 
 reference.eq = lambda impl, ref: impl == ref
@@ -769,6 +904,8 @@ REGRESSIONS = [
     b"<a>x <!--c--> <!--d--> y</a>",
     b"<a> /x</a>", b'<a> "x</a>', b"<a> =x</a>", b"<a> 'x' </a>", b'<a>"<b/>"</a>',   # D36
     b"<?a\n?>x", b"<?a\r\n?>\r<r/>", b"<?a\n<!-- ?> -->?><r/>",     # D38
+    b"<?a ?<!--?><r/>", b"<?x ?<!-- ?> -->?><r/>", b"<?a\n<!-- ?> --><r/>", b"<?a\r\n <!--?><r/>", b"<?a\r<!--?>\n<r/>",   # D39: '<!--' inside
+    b"<?a\n<!--?><r/>", b"<?a ? \t<!-- x --> ?>\n<!-- c --><r/>", b"<?a ?<!--", b"<?a\n <!-- ?", b"<?a ?<b?><r>\n<</r>",          # an instruction is no comment
     b'<a b="&#10;&#13;"/>',
     b"<!---><a/>", b"<!----><a/>", b"<!--> --><a/>", b"<!-->", b"<!--",
     b"", b" ", b"\n\r\n", b"<!-- only -->", b"<?xml?>", b"<?", b"<", b"</a>", b"x<a/>",
@@ -925,11 +1062,14 @@ class DocGen:
                 out += r.choice([b'<?xml version="1.0"?>', HEADER.strip(), b'<?xml version="1.0" encoding="utf-8"\n?>'])
             out += self.misc(0.5)
             for _ in range(r.choice([0, 0, 1, 2])):
-                out += r.choice([b"<?pi?>", b"<?p a\nb?>", b"<?q x='?' ?>", b"<?t\n\n??>"]) + self.misc(0.5)
+                out += r.choice([b"<?pi?>", b"<?p a\nb?>", b"<?q x='?' ?>", b"<?t\n\n??>",
+                                 b"<?u ?<!--?>", b"<?v\n<!-- c?>", b"<?w\n \t<!--x--> ?>", b"<?y <e> ?<f/>?>"]) + self.misc(0.5)
         else:
             out += self.misc(0.5)
             for _ in range(r.choice([0, 0, 1, 2])):
-                out += r.choice([b"<??>", b"<?a\r\nb\r?>", b"<?\n?>", b"<? ? > ?>", b"<?x <a> ?>", b"<?a\n\r\n?>", b"<?a?\n?>"]) + self.misc(0.6)
+                out += r.choice([b"<??>", b"<?a\r\nb\r?>", b"<?\n?>", b"<? ? > ?>", b"<?x <a> ?>", b"<?a\n\r\n?>", b"<?a?\n?>",
+                                 b"<?b ?<!-- ?>", b"<?c\r<!--\n?>", b"<?d ?\t<!-- -- ?>", b"<?e\r\n \n<!--?>", b"<?f?<!--x-->\r?>",
+                                 b"<?g\n<!-- ?> -->"]) + self.misc(0.6)
         out += self.element(0)
         out += self.misc(0.4)
         return out
@@ -1078,6 +1218,89 @@ def capacity_ops(rng, quick):
     return ops
 
 
+
+# ---- histories over Variant handles ---------------------------------------------------------------------------
+H_SMALL = ["hmut 0 - addelem 61", "hmut 0 0 addtext 78", "hmut 0 0 rename 7a", "hmut 1 0 rename 79", "hmut 1 - addtext 62",
+           "hassign 1 0", "hassign 0 1", "hclear 0", "hmut 0 - push 1", "hmut 1 0 settext 0 71", "hsetstr 1 73", "hmut 0 - delfirst"]
+H_NAMES = ["61", "62", "7a", "-", "6b31"]
+H_TEXTS = ["78", "-", "2026", "3c", "0a"]
+
+
+def h_size(v):
+    return 1 if not isinstance(v, tuple) else 1 + sum(h_size(c) for c in v[3])
+
+
+def h_paths(v, limit=4):
+    """all paths to element-or-text positions of the value (as the mutable walk can address them)"""
+    out = [[]]
+    if isinstance(v, tuple):
+        for i, c in enumerate(v[3][:limit]):
+            out += [[i] + q for q in h_paths(c, limit)]
+    return out
+
+
+def gen_h_history(rng):
+    vars_ = [None] * NVARS
+    ops = []
+    n = rng.choice([6, 10, 16, 25, 40])
+    while len(ops) < n:
+        r = rng.random()
+        v = rng.randrange(NVARS if r > 0.03 else NVARS + 1)
+        if r < 0.05:                                    # deliberately invalid
+            op = rng.choice([f"hmut {v} 9 rename 61", f"hmut {v} - delfirst" if not (isinstance(vars_[v % NVARS], tuple) and vars_[v % NVARS][3]) else f"hmut {v} - settext 99 78",
+                             f"hmut {v} - push {v}", f"hmut {v} - push {rng.randrange(NVARS)}", f"hassign {v} 4", "hmut 0 - rename 6", "hmut 0 0. rename 61", f"hclear {NVARS}"])
+        elif r < 0.22:
+            src = rng.randrange(NVARS)
+            op = f"hassign {v} {src if rng.random() > 0.08 else v}"
+        elif r < 0.27:
+            op = f"hclear {v}"
+        elif r < 0.32:
+            op = f"hsetstr {v} {rng.choice(H_TEXTS)}"
+        else:
+            v %= NVARS
+            val = vars_[v]
+            path = rng.choice(h_paths(val)) if rng.random() < 0.85 else []
+            pth = ".".join(map(str, path)) if path else "-"
+            tgt = val
+            for i in path:
+                tgt = h_elem(tgt)[3][i]
+            nk = len(h_elem(tgt)[3])
+            big = h_size(val) > 60
+            k = rng.random()
+            if k < 0.18:
+                ed = f"rename {rng.choice(H_NAMES)}"
+            elif k < 0.28:
+                ed = f"attr {rng.choice(['6b', '61', '6b32'])} {rng.choice(H_TEXTS)}"
+            elif k < 0.42 and not big:
+                ed = f"addtext {rng.choice(H_TEXTS)}"
+            elif k < 0.60 and not big:
+                ed = f"addelem {rng.choice(H_NAMES)}"
+            elif k < 0.68 and nk:
+                ed = "delfirst"
+            elif k < 0.72:
+                ed = "clear"
+            elif k < 0.86 and nk:
+                ed = f"settext {rng.randrange(nk)} {rng.choice(H_TEXTS)}"
+            elif not big:
+                cands = [i for i in range(NVARS) if i != v and vars_[i] is not None and h_size(vars_[i]) <= 30]
+                ed = f"push {rng.choice(cands)}" if cands else f"addelem {rng.choice(H_NAMES)}"
+            else:
+                ed = "delfirst" if nk else "clear"
+            op = f"hmut {v} {pth} {ed}"
+        h_step(vars_, op.split(" "))
+        ops.append(op)
+    return ops
+
+
+H_REGRESSIONS = [
+    ["hmut 0 - rename 61", "hmut 0 - addelem 62", "hmut 0 0 addtext 78", "hassign 1 0", "hmut 1 0 rename 7a", "hmut 1 0 settext 0 79",
+     "hmut 0 - push 1", "hclear 1", "hsetstr 2 6869", "hmut 2 - delfirst", "hmut 0 1.0 clear", "hmut 0 5 clear", "hassign 3 1", "hassign 0 0",
+     "hmut 2 - attr 6b 76", "hmut 4 - clear"],
+    ["hsetstr 0 78", "hassign 1 0", "hsetstr 1 79", "hassign 2 0", "hmut 2 - addtext 7a", "hclear 0", "hassign 1 3", "hassign 3 3"],
+    ["hmut 0 - addtext 78", "hassign 1 0", "hmut 1 - settext 0 79", "hmut 0 - settext 0 7a", "hmut 0 - settext 0 71", "hmut 1 0 addelem 62", "hmut 0 0 rename 63"],
+    ["hmut 0 - addelem 61", "hmut 0 0 addelem 62", "hmut 0 0.0 addelem 63", "hassign 1 0", "hassign 2 1", "hmut 1 0.0.0 rename 7a", "hclear 0", "hmut 2 0.0 delfirst", "hmut 1 0 clear"],
+]
+
 def chunks(ops, n):
     return [ops[i:i + n] for i in range(0, len(ops), n)]
 
@@ -1142,6 +1365,40 @@ def histories_for(ctx):
     counts["trees (rt/tostr/copy/deep ops)"] = len(tops)
     hs += chunks(tops, 2)
 
+    # Variant handles: histories over 4 variables (the state lives for one history)
+    if variant_repaired():
+        HBRANCH.clear()
+        hh = [list(h) for h in H_REGRESSIONS]
+        nh = 3 if quick else 4
+        for k in range(1, nh + 1):
+            for w in itertools.product(H_SMALL, repeat=k):
+                hh.append(list(w))
+        counts["handle histories: exhaustive (<= %d ops of %d)" % (nh, len(H_SMALL))] = len(hh) - len(H_REGRESSIONS)
+        nrand = 3000 if quick else 30000
+        rnd = [gen_h_history(rng) for _ in range(nrand)]
+        counts["handle histories: random"] = nrand
+        counts["handle ops"] = sum(len(h) for h in hh) + sum(len(h) for h in rnd)
+        for h in hh:                                   # branch counters of the enumerated part
+            st = [None] * NVARS
+            for op in h:
+                h_step(st, op.split(" "))
+        ctx.cov["branch_hits"] = dict(sorted(HBRANCH.items()))
+        hs += hh + rnd
+    else:
+        ctx.notes.append("Xml.hpp does not carry the repairs of Xml::Variant (D15/D16): handle histories (hassign/hmut ...) not generated")
+
+    # the public entry points (Xml::parse(const String&), Xml::Parser, Xml::save/load)
+    pub = ["pparse 3c61", "pparse -", "parser 3c613e3c2f623e", "parser " + hx(REGRESSIONS[0]), "pparse " + hx(REGRESSIONS[0]), "file (61@62=0a,t78)", "parser -"]
+    for d in rng.sample(docs, 300 if quick else 3000) + rng.sample(muts, 300 if quick else 3000):
+        pub.append(("pparse " if rng.random() < 0.5 else "parser ") + hx(d))
+    nfile = 0
+    for op in tops:
+        if op.startswith("rt ") and "00" not in op and nfile < (200 if quick else 2000) and len(op) < 4000:
+            pub.append("file " + op[3:])
+            nfile += 1
+    counts["public entry points (pparse/parser/file)"] = len(pub)
+    hs += chunks(pub, 4)
+
     eops = []
     for k in range(4):
         for w in itertools.product(ESC_SMALL, repeat=k):
@@ -1191,7 +1448,7 @@ def histories_for(ctx):
 def nontrivial(h, out):
     keys = []
     for l, o in zip(h, out):
-        if len(l) >= 14:
+        if len(l) >= 14 or (l.startswith("h") and len(o) > 12):
             keys.append((l.split(" ")[0], hashlib.sha1(o.encode()).hexdigest()[:16]))
     return frozenset(keys) if keys else None
 
@@ -1201,7 +1458,7 @@ ASSUMPTIONS = [
     "String, HashMap (iteration in insertion order, append replaces the value of an existing key) and List of libnstd behave as documented",
     "sscanf(\"#%u\") of glibc: optional white space and sign, decimal digits, strtoul saturation, result truncated to 32 bit",
     "allocation never fails; recursion depth of the real parser is bounded by the nesting depth of the text (checked up to 1000)",
-    "the model mirrors the repaired Xml.cpp (fixes/xml/0001..0004); Xml::Variant assignment / mutable toElement() on shared values (D15/D16, Rc area) are not exercised",
+    "the model mirrors the repaired Xml.cpp (fixes/xml/0001..0005); Xml::Variant assignment / mutable toElement() on shared values (D15/D16, Rc area) are not exercised",
     "round trip: names are non-empty, free of NUL / > = white space and do not start with < \" ' ? !; attribute keys distinct; text children non-blank and not adjacent; no NUL anywhere",
 ]
 
